@@ -190,6 +190,85 @@ fn gen_history(rng: &mut StdRng, nops: usize, delete_all: bool, avoid_f0: bool, 
     ops
 }
 
+fn run_gcrace(tracer: &Tracer, rng: &mut StdRng, r: u64, tag: Value) {
+    use std::sync::{Arc, Condvar, Mutex};
+    use std::time::Duration;
+    tracer.reset_canon();
+    let mut cfg = Cfg::default();
+    cfg.threads = 1;
+    cfg.flush_after = 1;
+    cfg.merge = "none".into();
+    tracer.emit(json!({"ev":"reset","cfg":cfg.to_json(),"tag":tag}));
+    let mut w = World::new_quiet(tracer, &cfg, false);
+    install_sink(tracer, w.regs.clone(), None);
+    w.exec(&json!({"op":"new_writer"}));
+    for id in 1..=3u64 {
+        w.exec(&json!({"op":"add","id":id,"t":pick(rng, &["a","b"]),"v":id as i64}));
+    }
+    w.exec(&json!({"op":"commit"}));
+    // who is parked: a worker (even runs) or a merge thread (odd runs), at its k-th file creation
+    let victim = if r % 2 == 0 { "worker" } else { "merge" };
+    let k = 1 + (r / 2) % 6;
+    // (count, parked, release)
+    let st = Arc::new((Mutex::new((0u64, false, false)), Condvar::new()));
+    let st2 = st.clone();
+    let vict = victim.to_string();
+    w.dir.set_gate(Some(Arc::new(move |op: &vh::simdir::OpInfo, after: bool| {
+        if op.role.starts_with(&vict) && op.op == "open_write" && after && !op.path.ends_with(".lock") {
+            let (m, cv) = &*st2;
+            let mut g = m.lock().unwrap();
+            g.0 += 1;
+            if g.0 == k && !g.1 {
+                g.1 = true;
+                cv.notify_all();
+                let t0 = std::time::Instant::now();
+                while !g.2 && t0.elapsed() < Duration::from_secs(5) {
+                    let (g2, _) = cv.wait_timeout(g, Duration::from_millis(50)).unwrap();
+                    g = g2;
+                }
+            }
+        }
+    })));
+    let fut = if victim == "worker" {
+        w.exec(&json!({"op":"add","id":10,"t":"c","v":0}));
+        None
+    } else {
+        let ids = w.index.searchable_segment_ids().unwrap_or_default();
+        w.writer.as_mut().map(|wr| wr.merge(&ids))
+    };
+    {
+        let (m, cv) = &*st;
+        let mut g = m.lock().unwrap();
+        let t0 = std::time::Instant::now();
+        while !g.1 && t0.elapsed() < Duration::from_secs(3) {
+            let (g2, _) = cv.wait_timeout(g, Duration::from_millis(20)).unwrap();
+            g = g2;
+        }
+    }
+    let realised = st.0.lock().unwrap().1;
+    w.exec(&json!({"op":"gc"}));
+    {
+        let (m, cv) = &*st;
+        m.lock().unwrap().2 = true;
+        cv.notify_all();
+    }
+    if let Some(f) = fut {
+        let res = f.wait();
+        let obs = w.observe();
+        tracer.emit(json!({"ev":"merge","ok":res.is_ok(),"sids":[],"obs":obs}));
+    }
+    w.dir.set_gate(None);
+    tracer.emit(json!({"ev":"schedule","name":format!("explicit GC while a {victim} thread is parked after its file creation #{k}"),"realised":realised}));
+    w.exec(&json!({"op":"commit"}));
+    w.exec(&json!({"op":"wait_merges"}));
+    w.exec(&json!({"op":"new_writer"}));
+    w.exec(&json!({"op":"gc"}));
+    w.exec(&json!({"op":"wait_merges"}));
+    w.exec(&json!({"op":"observe"}));
+    tantivy::verif::set_sink(None);
+    tracer.emit(json!({"ev":"end","listing":w.dir.listing(),"locks":w.dir.lock_files(),"managed":w.managed()}));
+}
+
 /// Producer threads call add_document / delete_term concurrently on one writer; the stamp_drawn
 /// hook (between drawing the opstamp and publishing the operation) is used as a seeded pause
 /// point so that operations really overlap.  Every call is logged at its start and at its end.
@@ -296,6 +375,16 @@ fn main() {
                 cfg.sorted = if so == "mix" { pick(&mut rng, &["", "", "v_asc", "v_desc"]).to_string() } else { so };
                 let ops = gen_history(&mut rng, nops, a.flag("delete-all"), avoid.contains("f0"), &["a", "b", "c"], a.flag("term-deletes"));
                 run_history(&tracer, &cfg, &ops, storage, &json!({"seed":seed,"run":r}));
+            }
+        }
+        "gcrace" => {
+            // garbage collection forced while an indexing worker / a merge thread is in the middle
+            // of creating the files of a segment (parked by the gate at its k-th file creation)
+            let seed = a.num("seed", 1);
+            let runs = a.num("runs", 12);
+            let mut rng = StdRng::seed_from_u64(seed);
+            for r in 0..runs {
+                run_gcrace(&tracer, &mut rng, r, json!({"seed":seed,"run":r,"gcrace":true}));
             }
         }
         "producers" => {
